@@ -98,6 +98,8 @@ def render_inputs(runs: Sequence[dict]) -> str:
             out.append(f"t0 {int(run['t0'])}")
         if run.get("maxev"):
             out.append(f"maxev {int(run['maxev'])}")
+        if run.get("lcdquiet"):
+            out.append("lcdquiet 1")
         for key in ("dr", "ar"):
             for pin, values in (run.get(key) or {}).items():
                 out.append(f"{key} {pin_number(pin)} " + " ".join(str(int(v)) for v in values))
@@ -112,6 +114,22 @@ def render_inputs(runs: Sequence[dict]) -> str:
 # ----------------------------------------------------------------------------------------------
 # traces
 # ----------------------------------------------------------------------------------------------
+def unhex_latin1(text: str) -> str:
+    """Decode an LCD cell dump: one character per byte (HD44780 cells are bytes, 0xFF is the block)."""
+    if "%" not in text:
+        return text
+    out = []
+    i = 0
+    while i < len(text):
+        if text[i] == "%" and i + 2 < len(text) + 1 and re.fullmatch(r"[0-9A-F]{2}", text[i + 1 : i + 3] or ""):
+            out.append(chr(int(text[i + 1 : i + 3], 16)))
+            i += 3
+        else:
+            out.append(text[i])
+            i += 1
+    return "".join(out)
+
+
 def unhex(text: str) -> str:
     if "%" not in text:
         return text
